@@ -1,14 +1,40 @@
 (* Correspondence definitions for C05: evaluate the model on the cases the implementation ran. *)
 From Coq Require Import List NArith ZArith Bool.
 Import ListNotations.
-From GMS Require Import Expr.C05Expr.
+From GMS Require Import Expr.C05Expr Expr.C05Like Plan.C05Pushdown.
 
 Inductive case :=
 (* rule level: e, observed simplifyExpression(e), pushNotFiltersHelper(e), pushNotFiltersHelper(simplifyExpression(e)) *)
 | RuleCase (e simp pushed both : expr)
 (* engine level: table rows (column values in column order), predicate, observed value of SELECT p per row (row order),
    positions of the rows kept by WHERE p / WHERE NOT p / WHERE p IS NULL *)
-| EngCase (rows : list row) (p : expr) (sel : list val) (w wn wnull : list N).
+| EngCase (rows : list row) (p : expr) (sel : list val) (w wn wnull : list N)
+(* incrementLastRune(prefix) observed (code points) *)
+| LikeIncrCase (prefix : list N) (obs : option (list N))
+(* column values (None = NULL) as code points, LIKE pattern, positions kept by WHERE s LIKE pat (the rewritten filter)
+   and positions where SELECT s LIKE pat is 1 *)
+| LikeCase (vals : list (option (list N))) (pat : list N) (w sel : list N)
+(* pushFilters on a plan (slot ownership, plan before, observed plan after) *)
+| PushCase (own : list nat) (before after : plan).
+
+Fixpoint plan_eqb (a b : plan) : bool :=
+  match a, b with
+  | PTable t, PTable t' => Nat.eqb t t'
+  | PFilter p c, PFilter p' c' => expr_eqb p p' && plan_eqb c c'
+  | PJoin lo p x y, PJoin lo' p' x' y' => Bool.eqb lo lo' && expr_eqb p p' && plan_eqb x x' && plan_eqb y y'
+  | PLimit n c, PLimit n' c' => Nat.eqb n n' && plan_eqb c c'
+  | _, _ => false
+  end.
+
+Fixpoint opositions (f : list N -> bool) (vals : list (option (list N))) (i : N) : list N :=
+  match vals with
+  | [] => []
+  | Some s :: r => if f s then i :: opositions f r (N.succ i) else opositions f r (N.succ i)
+  | None :: r => opositions f r (N.succ i)
+  end.
+
+Definition oeqb (a b : option (list N)) : bool :=
+  match a, b with Some x, Some y => list_eqb N.eqb x y | None, None => true | _, _ => false end.
 
 Fixpoint positions (f : row -> bool) (rows : list row) (i : N) : list N :=
   match rows with
@@ -29,6 +55,10 @@ Definition ok (c : case) : bool :=
       list_eqb N.eqb (kept (push_not (simplify p)) rows) w &&
       list_eqb N.eqb (kept (push_not (simplify (Not p))) rows) wn &&
       list_eqb N.eqb (kept (push_not (simplify (IsNull p))) rows) wnull
+  | PushCase own before after => plan_eqb (push_filters own before) after
+  | LikeIncrCase prefix obs => oeqb (incr_last prefix) obs
+  | LikeCase vals pat w sel =>
+      list_eqb N.eqb (opositions (eval_rewrite pat) vals 0%N) w && list_eqb N.eqb (opositions (like pat) vals 0%N) sel
   end.
 
 Definition mismatches (cs : list (N * case)) : list N :=
